@@ -258,7 +258,7 @@ impl TrackBuilder {
 			sends,
 			persist_until_sounds_finish: self.persist_until_sounds_finish,
 			spatial_data: None,
-			playback_state_manager: PlaybackStateManager::new(None),
+			playback_state_manager: PlaybackStateManager::new_for_track(),
 			temp_buffer: vec![Frame::ZERO; internal_buffer_size],
 			internal_buffer_size,
 		};
